@@ -57,6 +57,20 @@ type Cfg struct {
 	// Overlap: the previous (failing) eon of the keyper set is still in its apologising phase when the
 	// eon under test starts, so every keyper holds two active DKG objects for one block.
 	Overlap bool `json:"overlap,omitempty"`
+	// OvBlock: with Overlap, the relative block in which the previous eon is finalised (0 = 1). With
+	// OvBlock = PhaseLen that block is also the first accusing block of the eon under test.
+	OvBlock int `json:"ovBlock,omitempty"`
+}
+
+// Ov is the value of the state field ov of DKG.tla.
+func (c Cfg) Ov() int {
+	if !c.Overlap {
+		return 0
+	}
+	if c.OvBlock > 0 {
+		return c.OvBlock
+	}
+	return 1
 }
 
 func (c Cfg) IsByz(i int) bool {
@@ -81,6 +95,7 @@ type Op struct {
 	Op   string   `json:"op"`
 	S    int      `json:"s"`
 	Vals []string `json:"vals"`
+	Rev  bool     `json:"rev"` // entries in descending keyper order
 }
 
 // Out is the observed answer to an op.
@@ -178,6 +193,10 @@ type World struct {
 	rl     []int
 	skip   []bool
 	lags   int
+	tagRv  bool
+	tagOor bool
+	tagAt  int
+	tagBnd bool
 	rng    *rand.Rand
 	Panics []string
 	Calls  int
@@ -404,7 +423,7 @@ func NewWorldOpts(cfg Cfg, seed int64, o WorldOpts) (*World, error) {
 	}
 	silent := int64(3 * cfg.PhaseLen)
 	if cfg.Overlap {
-		silent -= 2 // the eon is restarted in the last block of the previous eon's apologising phase
+		silent -= int64(cfg.Ov()) + 1 // the eon is restarted Ov() blocks before the previous eon is finalised
 	}
 	for w.Chain.Height() < first+silent {
 		w.Chain.OpenBlock()
@@ -552,6 +571,25 @@ func badEval(v *big.Int) *big.Int {
 	return x
 }
 
+// order lists the keypers 1..n ascending, or descending for rev.
+func order(n int, rev bool) []int {
+	out := make([]int, n)
+	for i := range out {
+		if rev {
+			out[i] = n - i
+		} else {
+			out[i] = i + 1
+		}
+	}
+	return out
+}
+
+// outOfRange is a value that is not a valid evaluation (>= the group order; shcrypto.ValidEval).
+func outOfRange() *big.Int {
+	x := new(big.Int).Lsh(big.NewInt(1), 256)
+	return x.Sub(x, big.NewInt(1))
+}
+
 func (w *World) sign(i int, m *shmsg.Message) []byte {
 	signed, err := shmsg.SignMessage(&shmsg.MessageWithNonce{ChainId: []byte(sm.ChainID), RandomNonce: w.rng.Uint64(), Msg: m}, w.privs[i])
 	if err != nil {
@@ -598,7 +636,7 @@ func (w *World) byzTx(o Op) []byte {
 		m = shmsg.NewPolyEval(w.Eon, rs, evals)
 	case "bacc":
 		var acc []common.Address
-		for d := 1; d <= w.Cfg.N; d++ {
+		for _, d := range order(w.Cfg.N, o.Rev) {
 			if o.Vals[d-1] != Blank {
 				acc = append(acc, w.addr(d))
 			}
@@ -607,7 +645,7 @@ func (w *World) byzTx(o Op) []byte {
 	case "bapol":
 		var accusers []common.Address
 		var evals []*big.Int
-		for a := 1; a <= w.Cfg.N; a++ {
+		for _, a := range order(w.Cfg.N, o.Rev) {
 			v := o.Vals[a-1]
 			if v == Blank {
 				continue
@@ -615,6 +653,9 @@ func (w *World) byzTx(o Op) []byte {
 			e := w.polys[b].EvalForKeyper(a - 1)
 			if v == "bad" {
 				e = badEval(e)
+			}
+			if v == "oor" {
+				e = outOfRange()
 			}
 			accusers = append(accusers, w.addr(a))
 			evals = append(evals, e)
@@ -651,6 +692,9 @@ func (w *World) gammaClass(sender int, g *shcrypto.Gammas) string {
 func (w *World) evalClass(dealer, receiver int, e *big.Int) string {
 	if e == nil || e.Sign() == 0 {
 		return "none"
+	}
+	if !shcrypto.ValidEval(e) {
+		return "oor"
 	}
 	w.learn(dealer)
 	gm := w.gam[dealer]
@@ -1036,7 +1080,7 @@ func (w *World) State() J {
 		}
 		backlog = append(backlog, J{"h": h, "evs": evs})
 	}
-	return J{"h": w.RelH(), "stage": w.stage, "rej": w.rej, "rl": append([]int{}, w.rl...), "lags": w.lags, "ov": w.Cfg.Overlap,
+	return J{"h": w.RelH(), "stage": w.stage, "rej": w.rej, "rl": append([]int{}, w.rl...), "lags": w.lags, "ov": w.Cfg.Ov(), "tags": J{"rv": w.tagRv, "oor": w.tagOor, "at": w.tagAt, "bnd": w.tagBnd},
 		"skip": append([]bool{}, w.skip...), "sync": syncs, "backlog": backlog, "kp": kp, "app": w.absApp(), "blk": blk}
 }
 
@@ -1126,6 +1170,7 @@ func (w *World) Apply(o Op) Out {
 		return out
 	default:
 		w.stage = rank(o, w.Cfg.N)
+		relBefore := w.RelH()
 		tx := w.byzTx(o)
 		chk, res, h := w.Chain.Submit(tx)
 		out.Msg = w.absTx(tx)
@@ -1137,6 +1182,18 @@ func (w *World) Apply(o Op) Out {
 		}
 		if out.Code != 0 {
 			w.rej++
+		}
+		w.tagRv = w.tagRv || o.Rev
+		special := o.Rev
+		for _, v := range o.Vals {
+			w.tagOor = w.tagOor || v == "oor"
+			special = special || v == "oor"
+		}
+		if special {
+			w.tagAt = relBefore
+		}
+		if ov := w.Cfg.Ov(); ov > 0 && relBefore == ov {
+			w.tagBnd = true
 		}
 		return out
 	}
